@@ -996,6 +996,27 @@ static void runCc(const CcCase& cc, Ctx& ctx)
   int nChecked = 0, nIll = 0, nCol = 0;
   // without any ordinary datum the neighbourhood is empty before the collocated datum is considered: out of scope
   if (admissibleAll(c).empty()) { ctx.label("no-data"); return; }
+  // the same collocated option with ALL the targets in one call: each target's answer is still the one of its own system
+  // (whatever the library keeps from the previous target)
+  KRes C;
+  C.err = 1;
+  {
+    World wc;
+    if (!buildWorld(c, wc, ctx)) return;
+    VectorInt rank((size_t)nv);
+    for (int v = 0; v < nv; v++)
+    {
+      rank[v] = -1;
+      if (!cc.colvar[(size_t)v]) continue;
+      VectorDouble col((size_t)nt);
+      for (int k = 0; k < nt; k++) col[k] = cc.zc[(size_t)(k * nv + v)];
+      wc.dbout->addColumns(col, "col" + std::to_string(v + 1));
+      rank[v] = wc.dbout->getUID("col" + std::to_string(v + 1));
+    }
+    ctx.at("kriging:colcok-batch:" + V);
+    C = runK(wc.dbin.get(), wc.dbout.get(), wc.model.get(), wc.neigh.get(), nv, false, VectorInt(), rank, "KC", wantVarz);
+    if (C.err || !C.cols) ctx.label("colcok-batch:refused");
+  }
   for (int k = 0; k < nt; k++)
   {
     const double* x = c.targ.p(k);
@@ -1046,6 +1067,13 @@ static void runCc(const CcCase& cc, Ctx& ctx)
       if (!cmpVal(ctx, "colcok:estim:" + V, "estim", k, tv, A.est[(size_t)tv], B.est[(size_t)tv], t.e, S.kappa)) return;
       if (!cmpVal(ctx, "colcok:stdev:" + V, "stdev", k, tv, A.sd[(size_t)tv], B.sd[(size_t)tv], t.v, S.kappa, true)) return;
       if (wantVarz && !cmpVal(ctx, "colcok:varz:" + V, "varz", k, tv, A.vz[(size_t)tv], B.vz[(size_t)tv], t.v, S.kappa)) return;
+      if (!C.err && C.cols)
+      {
+        size_t q = (size_t)(k * nv + tv);
+        if (!cmpVal(ctx, "colcok:batch:estim:" + V, "estim (all targets in one call)", k, tv, C.est[q], B.est[(size_t)tv], t.e, S.kappa)) return;
+        if (!cmpVal(ctx, "colcok:batch:stdev:" + V, "stdev (all targets in one call)", k, tv, C.sd[q], B.sd[(size_t)tv], t.v, S.kappa, true)) return;
+        if (wantVarz && !cmpVal(ctx, "colcok:batch:varz:" + V, "varz (all targets in one call)", k, tv, C.vz[q], B.vz[(size_t)tv], t.v, S.kappa)) return;
+      }
     }
   }
   if (nChecked == 0 && nIll > 0) ctx.inconclusive("ill-conditioned");
